@@ -894,6 +894,12 @@ def confirmation_programs(rng, ds, base):
         out.append({"ops": [op], "rd": ["to_pandas", None, dflt], "stream": "state-roundtrip"})
         out.append({"ops": [["pick", -1], op], "rd": ["iter", None, dflt, None], "stream": "state-roundtrip"})
         out.append({"ops": [op, ["slice", None, 2, None]], "rd": ["head", base["total"], None, {"kind": "false", "names": []}], "stream": "state-roundtrip"})
+    # head(n) for NEGATIVE n ("all but the last -n rows"): every row group is needed (gen_head_negative_selects_everything on the
+    # regenerated loop); the Coq model of head takes a natural n, so these programs are decided by the oracle only
+    if base["total"] > 0:
+        dflt = {"kind": "default", "names": []}
+        for n in sorted({-1, -rng.randint(1, base["total"]), -(base["total"] + 1)}):
+            out.append({"ops": [] if rng.random() < 0.6 else [gen_slice(rng)], "rd": ["head", n, None, dflt], "stream": "head-negative"})
     # two names over REQUIRED numeric columns only: with an optional column as a level the real code stores raw values as
     # level codes and the frame cannot even be inspected safely (segfault seen) - recorded in the finding, not re-run here
     distinct_nonempty = len(set(g[0] for g in base["rgs"] if g[1] > 0))
